@@ -226,7 +226,9 @@ def run(cmd, cwd, timeout, env=None):
 
 def syntax_gate(workdir):
     """gcc -std=c99 on the generated source alone -> (ok, number of warnings, first messages)"""
-    rc, out, err = run(['gcc', '-std=c99', '-pedantic', '-Wall', '-Wextra', '-c', 'gen.c', '-o', 'gen_gcc.o'], workdir, 120)
+    rc, out, err = run(['gcc', '-std=c99', '-pedantic', '-Wall', '-Wextra', '-c', 'gen.c', '-o', 'gen_gcc.o'], workdir, 600)
+    if rc is None:
+        return None, 0, 'gcc did not finish within 600 s (loaded machine): no verdict'
     warnings = len(re.findall(r'warning:', err))
     errors = [l for l in err.splitlines() if 'error:' in l]
     return rc == 0, warnings, '\n'.join(errors[:6]) if errors else err[:800]
@@ -235,11 +237,13 @@ def syntax_gate(workdir):
 def build(workdir):
     """clang ASan+UBSan executable -> (ok, stderr)"""
     rc, out, err = run(['clang', '-std=c99', '-g', '-O1', '-fno-omit-frame-pointer', '-fsanitize=address,undefined',
-                        '-fno-sanitize-recover=all', '-Wno-unused-function', 'gen.c', 'driver.c', '-o', 'drv', '-lm'], workdir, 300)
+                        '-fno-sanitize-recover=all', '-Wno-unused-function', 'gen.c', 'driver.c', '-o', 'drv', '-lm'], workdir, 900)
+    if rc is None:
+        return None, 'clang did not finish within 900 s (loaded machine): no verdict'
     return rc == 0, err
 
 
-def execute(workdir, corpus_path, timeout=300):
+def execute(workdir, corpus_path, timeout=900):
     env = dict(os.environ)
     env['ASAN_OPTIONS'] = 'halt_on_error=1:abort_on_error=0:detect_leaks=0:allocator_may_return_null=1:symbolize=1'
     env['UBSAN_OPTIONS'] = 'halt_on_error=1:print_stacktrace=1'
